@@ -788,6 +788,11 @@ func (c *Canary) send(state *State, payload []byte, flags tcp.Flag) error {
 
 	}
 
+	if ae == nil {
+		// no arp entry for the peer or its gateway: the packet cannot be delivered
+		return fmt.Errorf("no arp entry found for %s", dst.String())
+	}
+
 	ef := ethernet.Frame{
 		Source:      c.networkInterfaces[0].HardwareAddr,
 		Destination: ae.HardwareAddress,
